@@ -721,6 +721,9 @@ func (env *specEnv) evalBin(e *EBin) sval {
 		return sval{t: r, typ: tBool}
 	case "<", "<=", ">", ">=":
 		a, b := env.unify(x, y)
+		if (isString(x.typ) && !isUntyped(x.typ)) || (isString(y.typ) && !isUntyped(y.typ)) {
+			a, b = env.eng.vc.strRank(a), env.eng.vc.strRank(b)
+		}
 		return sval{t: fmt.Sprintf("(%s %s %s)", e.Op, a, b), typ: tBool}
 	case "+", "-", "*", "/", "%":
 		a, b := env.unify(x, y)
